@@ -141,6 +141,45 @@ def accumulators(F, R, rule='B.C06.accumulate', floor=6):
     R.floor(rule, n, floor)
 
 
+def closure_in_chunk(F, b, bb, amount_op):
+    """(index ok, length ok) for `Div(index, length)` evaluated inside a closure body `b`."""
+    from ..facts import op_local
+    from .. import nonfinite
+    nonfinite.FACTS[0] = F
+    l = op_local(amount_op)
+    d = b.single_def(l) if l is not None else None
+    for _ in range(4):
+        if d and d[0] == 'stmt' and d[3]['rv']['k'] in ('use', 'cast') and op_local(d[3]['rv']['op']) is not None:
+            d = b.single_def(op_local(d[3]['rv']['op']))
+        else:
+            break
+    if not (d and d[0] == 'stmt' and d[3]['rv']['k'] == 'bin' and d[3]['rv']['op'] == 'Div'):
+        return False, False
+    def base(op):
+        cur = op
+        for _ in range(4):
+            l2 = op_local(cur)
+            d2 = b.single_def(l2) if l2 is not None and not cur['pl']['p'] else None
+            if d2 and d2[0] == 'stmt' and d2[3]['rv']['k'] in ('use', 'cast'):
+                cur = d2[3]['rv']['op']
+            else:
+                break
+        return cur
+    den = base(d[3]['rv']['b'])
+    rc = nonfinite.resolve_capture(b, den) if 'pl' in den else None
+    den_ok = False
+    consumer_enumerates = False
+    if rc is not None:
+        owner, at, cap, clocal = rc
+        den_ok = describe(owner, cap, depth=8, at=at).startswith('core::slice::<impl [T]>::len(')
+        for x, t in owner.calls():
+            if any(op_local(a2) == clocal for a2 in t['args'][1:]):
+                consumer_enumerates = 'enumerate' in describe(owner, t['args'][0], depth=8, at=x).lower()
+    num = describe(b, d[3]['rv']['a'], depth=6, at=bb)
+    idx_ok = consumer_enumerates and bool(__import__('re').match(r'^(Add\(1, )?_2\.0\)?$', num))
+    return idx_ok, den_ok
+
+
 def in_chunk_time(F, R, rule='B.C06.in-chunk'):
     """'Independently of how time is partitioned into updates': inside a chunk a parameter is read at the position of the
     frame within THIS chunk - every per-frame read (`interpolated_value`, the state manager's fade, the listener's
@@ -165,11 +204,18 @@ def in_chunk_time(F, R, rule='B.C06.in-chunk'):
                 continue          # handed through: judged at the callers of this function
             n += 1
             name, args = parse_term(d)
-            ok = name == 'Div' and args is not None and len(args) == 2 and 'Enumerate' in args[0] and args[0].count('::len(') == 0 \
-                and args[1].startswith('core::slice::<impl [T]>::len(') and 'self' not in args[1].split('::len(', 1)[1][:0]
+            ok = name == 'Div' and args is not None and len(args) == 2
             if ok:
-                inner = args[0]
-                ok = inner.startswith(('Add(1, ', 'Add(<', '<std::iter::Enumerate')) or inner.startswith('Add(')
+                num, den = args
+                # the index: the counter of an enumeration, or the item of a range that ends at a slice's length
+                idx_ok = ('Enumerate' in num and '::len(' not in num) or \
+                    ('Range<A>>::next(' in num and 'std::ops::Range::Range(' in num and '::len(' in num.split('std::ops::Range::Range(', 1)[1])
+                den_ok = den.startswith('core::slice::<impl [T]>::len(')
+                if '::{closure' in b.path and not (idx_ok and den_ok):
+                    # a closure handed to `..enumerate().for_each(..)`: the index is the first half of its argument, the
+                    # length a captured local of the function that owns it
+                    idx_ok, den_ok = closure_in_chunk(F, b, bb, a)
+                ok = idx_ok and den_ok
             R.check(ok, rule, '%s|%s#%s' % (b.path.split('::{closure')[0].lstrip('<').split(' as ')[0], cp.split('::')[-1], b.blocks[bb]['term'].get('line', '')) if False else
                     '%s|%s' % (b.path.split('::{closure')[0].lstrip('<').split(' as ')[0], cp.split('::')[-1]),
                     '%s reads %s at %s: not the position of the frame inside the slice being processed (index / length of that slice)'
